@@ -443,7 +443,7 @@ def encode_time_na(program, n, signed):
             return v[1], ln, takes_signed
     return None, (rows[0][3] if rows else 0), takes_signed
 
-def sent_sign_agree(chk, program):
+def sent_sign_agree(chk, program, sites=None):
     """SENT-AGREE / SIGN-AGREE: decoder and encoders agree on the not-available code and on two's complement"""
     db = program.db
     nt = enc_number_tuples(db)
@@ -469,14 +469,21 @@ def sent_sign_agree(chk, program):
             chk.check(f['wrap'] == 0, 'SIGN-AGREE', f"encode_number::{inst}", file=UT, line=f['line'], func='encode_number',
                       expected='no wrap for an unsigned field', found=f['wrap'], nontrivial=False)
     tt = enc_time_tuples(db)
+    site_signed = {}
+    if sites is not None:
+        for d, f, fname, row, t in sites:
+            if row['cls'].get('kind') == 'TIME':
+                site_signed[(fname, f.id)] = row['cls'].get('absent_signed')
     for (n, s), users in sorted(tt.items()):
         dna, dl = decoder_na(program, n, s)
-        ena, el, takes_signed = encode_time_na(program, n, s)
-        # do the generated call sites pass the signedness on?  (checked per site in GEN-ENC via absent_signed)
         for (d, f) in users:
+            # the signedness the generated call site hands to encode_time (None = argument omitted -> helper default)
+            passed = site_signed.get((f"encode_pgn_{d.suffix}", f.id))
+            ena, el, takes_signed = encode_time_na(program, n, bool(passed) if passed is not None else False)
             chk.check(dna is not None and ena == dna, 'SENT-AGREE', f"encode_time::encode_pgn_{d.suffix}::{f.id}", file=UT, line=el, func='encode_time',
                       expected=f"pattern for an absent {'signed' if s else 'unsigned'} {n}-bit time/duration == decoder's not-available code {dna}",
-                      found=ena, detail=('encode_time ignores signedness: all-ones decodes to -1 tick, not to absent' if s and ena == (1 << n) - 1 else ''))
+                      found=ena, detail=('the encoder writes all-ones for a signed field: that decodes to -1 tick, not to absent' if s and ena == (1 << n) - 1 else '') +
+                      f" (call site passes signed={passed})")
     chk.unit('sentinel_pairs', len(pairs) + len(tt))
 
 def enc_range(chk, program):
